@@ -1,6 +1,7 @@
 package props
 
 import (
+	sdkmath "cosmossdk.io/math"
 	"fmt"
 	"math/big"
 	"sort"
@@ -103,7 +104,20 @@ func (c12) Gen(w *e.World, r *e.RNG) e.Step {
 		for d, v := range dao.bal[w.Accts[a].Acc.String()] {
 			max[d] = v
 		}
-		return e.Step{K: "tx", Op: "xfer_amt", A: a, B: b, S: coins(max)}
+		st := e.Step{K: "tx", Op: "xfer_amt", A: a, B: b, S: coins(max)}
+		if r.Chance(0.12) && len(st.S) >= 2 {
+			// a hand-built coin list: the same denomination twice, unsorted, or a zero entry
+			st.N = []int64{1}
+			switch r.Intn(3) {
+			case 0:
+				st.S = append(st.S, st.S[0], r.Amount(max[st.S[0]]).String())
+			case 1:
+				st.S = append([]string{"zzz", "1"}, st.S...)
+			default:
+				st.S = append(st.S, c12Denoms[r.Intn(len(c12Denoms))], "0")
+			}
+		}
+		return st
 	case 4:
 		return e.Step{K: "tx", Op: "send", A: a, B: b, S: []string{e.Denom, r.Amount(nil).String()}}
 	case 5:
@@ -215,6 +229,16 @@ func (p c12) Exec(w *e.World, st *e.Step) *e.Violation {
 		cs, ok := parseCoins(st.S)
 		if !ok {
 			return nil
+		}
+		if st.NArg(0) == 1 {
+			// as sent by a client that does not normalise: order and duplicates are kept
+			cs = nil
+			for i := 0; i+1 < len(st.S); i += 2 {
+				if sdk.ValidateDenom(st.S[i]) == nil {
+					cs = append(cs, sdk.Coin{Denom: st.S[i], Amount: sdkmath.NewIntFromBigInt(e.BigS(st.S[i+1]))})
+				}
+			}
+			w.Stats.Probe("malformed_coin_list_sent")
 		}
 		msg = ucdaotypes.NewMsgTransferOwnershipWithAmount(a.Acc, b.Acc, cs)
 		for _, c := range cs {
